@@ -13,6 +13,18 @@ def _drop_if(text):
     return (lambda nd: isinstance(nd, ast.If) and text in ast.unparse(nd.test)), (lambda nd: None)
 
 
+
+def _split(nd, after):
+    import copy as _c
+    body = [s for s in nd.body if not (isinstance(s, ast.Expr) and isinstance(s.value, ast.Constant))]
+    store = body[-1]
+    checks = body[:-1]
+    h = ast.FunctionDef(name="_check_valid", args=_c.deepcopy(nd.args), body=checks,
+                        decorator_list=[], returns=None, type_comment=None, type_params=[])
+    call = stmt("self._check_valid(config)")
+    nd.body = ([store] + call) if after else (call + [store])
+    return [nd, h]
+
 VARIANTS = [
     V("c16_no_first_guard", "M", E, A, *_drop_if("not self._configs and"),
       note="schedules not starting with INITIAL_VALUES accepted (or crash)", expect_rule="C16.R1"),
@@ -69,7 +81,16 @@ VARIANTS = [
       *replace_expr("warmup_duration < init_duration + term_duration + base_duration",
                     "warmup_duration < init_duration + term_duration - base_duration"),
       note="too short warm-ups are accepted", expect_rule="C16.R3"),
+    V("c16_helper_validates_after_store", "M", E, "EpochManager",
+      lambda nd: isinstance(nd, ast.FunctionDef) and nd.name == "append",
+      lambda nd: _split(nd, after=True),
+      note="the checks moved into a helper that runs AFTER the config was stored: a rejected "
+           "epoch stays in the schedule", expect_rule="C16.R1"),
     # ---- twins
+    V("c16_t_helper_validates_first", "T", E, "EpochManager",
+      lambda nd: isinstance(nd, ast.FunctionDef) and nd.name == "append",
+      lambda nd: _split(nd, after=False),
+      note="the checks moved into a helper that runs before the config is stored"),
     V("c16_t_guard_reordered", "T", W, "stan_epochs",
       *replace_expr("warmup_duration < init_duration + term_duration + base_duration",
                     "base_duration + init_duration + term_duration > warmup_duration"),
